@@ -237,6 +237,40 @@ def _fragment_reuse(s1: int, s2: int, p1: int, p2: int, sibling_first: bool, swa
     return result(ok, reached)
 
 
+# ---- the SAME fragment spread several times in ONE selection set (directly, or once more through another fragment), some of the spreads switched off
+SPREAD_DIRS = ("", " @skip(if: true)", " @skip(if: false)", " @include(if: false)", " @include(if: true)", " @skip(if: $s)", " @include(if: $s)")
+SPREAD_PLACES = ("{ %s }", "{ me { %s } }", "{ users { %s } }", "{ me { best { %s } friends { %s } } }", "{ n ... on Query { %s } }")
+SPREAD_FRAGS = (("Query", "n"), ("User", "name"), ("User", "name"), ("User", "name"), ("Query", "me { id }"))
+
+
+def _spread_directives(d1: int, d2: int, d3: int, via: int, place: int, sval: bool) -> bool:
+    """
+    pre: 0 <= d1 < len(SPREAD_DIRS) and 0 <= d2 < len(SPREAD_DIRS) and -1 <= d3 < len(SPREAD_DIRS) and 0 <= via <= 3 and 0 <= place < len(SPREAD_PLACES)
+    pre: d3 == -1 or (thorough() and via == 0)
+    pre: sval or d1 >= 5 or d2 >= 5 or d3 >= 5
+    pre: shard_of(d1 * 7 + d2)
+    post: _
+    """
+    D1, D2, PL = pick(d1, SPREAD_DIRS), pick(d2, SPREAD_DIRS), concrete_int(place, 0, len(SPREAD_PLACES) - 1)
+    D3 = None if concrete_int(d3, -1, len(SPREAD_DIRS) - 1) < 0 else SPREAD_DIRS[concrete_int(d3, 0, len(SPREAD_DIRS) - 1)]
+    VIA, SV = concrete_int(via, 0, 3), (True if sval else False)
+    with untraced():
+        on, body = SPREAD_FRAGS[PL]
+        # via: which of the spreads reaches F through another fragment G (0 none, 1 the first, 2 the second, 3 the first through an inline fragment)
+        first = "...G" if VIA == 1 else ("... on %s { ...F%s }" % (on, D1) if VIA == 3 else "...F")
+        second = "...G" if VIA == 2 else "...F"
+        sel = "%s%s %s%s" % (first, "" if VIA == 3 else D1, second, D2)
+        if D3 is not None:
+            sel += " ...F%s" % D3
+        text = SPREAD_PLACES[PL].replace("%s", sel) + " fragment F on %s { %s }" % (on, body)
+        if VIA in (1, 2):
+            text += " fragment G on %s { ...F }" % on
+        if "$s" in text:
+            text = "query ($s: Boolean!) " + text
+        ok, reached = check_document(text, {"s": SV})
+    return result(ok, reached)
+
+
 # ---- custom scalars accept whatever their parser accepts - and everything else is a reported error, never a crash
 CS_LITERALS = ("1", "1.5", "\"s\"", "true", "null", "RED", "[1, 2]", "[]", "{a: 1}", "{}", "{a: {b: [RED, {c: null}]}}", "$v", "[$v]", "{a: $v}", "{a: 1, a: 2}", "[[\"x\"], {y: $nope}]")
 CS_POSITIONS = ("{ f(j: %L) }", "query ($v: JSON) { f(j: %L) }", "query ($v: JSON = %L) { f(j: $v) }", "{ g(i: {j: %L}) }", "query ($v: JSON) { g(i: {j: %L, js: [%L]}) }", "{ f(j: 1) @d(j: %L) }",
@@ -471,6 +505,13 @@ def _nested_conflicts(d1: int, d2: int, style: int, reverse: bool, parent: int, 
 
 
 CONDITIONS = [
+    Cond(
+        name="spread_directives", fn=_spread_directives, quick=100, thorough=200, per_path=60, shards_quick=16, shards_thorough=16,
+        bound="ONE fragment spread two (thorough: or three) times in one selection set (directly, through a second fragment, inside an inline fragment) x 7 directives per spread (none, @skip / @include with both literals "
+              "and with a variable) x both variable values x 5 places (root, object, list items, two sibling objects, inside a type-conditioned inline fragment): validation reports nothing and both executors "
+              "(+ the deferred leg) deliver what the reference executor's CollectFields gives - a spread that is switched off does not switch off the others",
+        symbolic={"d1,d2,d3,via,place,sval": "choice"}, assumptions=["as sound_source"], witness={"d1": 1, "d2": 0, "d3": -1, "via": 0, "place": 0, "sval": True},
+    ),
     Cond(
         name="custom_scalar_literals", fn=_custom_scalar_literals, quick=90, thorough=200, per_path=60, shards_quick=16, shards_thorough=16,
         bound="%d literals of every kind (scalars, null, enum, lists, objects, nested, with variables, duplicate keys) at %d positions of a CUSTOM scalar (argument, variable default, input field, list item, directive argument) x 3 scalars "
